@@ -243,6 +243,10 @@ func edgeImplies(e *GEdge, atom func(c ast.Expr, pol int) bool) bool {
 	if e.Cond == nil || e.Tag != nil {
 		return false
 	}
+	if e.From != nil && e.From.G != nil {
+		// look through boolean locals with a single, still valid definition (hoisted conditions)
+		return e.From.G.edgeImpliesDeep(e, atom)
+	}
 	return condHolds(e.Cond, e.Pol, atom)
 }
 
